@@ -75,8 +75,18 @@ func overlayFiles() (map[string]string, error) {
 			txt = regexp.MustCompile(r[0]).ReplaceAllString(txt, r[1])
 		}
 		out := filepath.Join(dd, strings.ReplaceAll(d.virt, "/", "_"))
-		if err := os.WriteFile(out, []byte(txt), 0644); err != nil {
-			return nil, err
+		// several jobs of one check (and their native builds) call this concurrently: never let a
+		// reader see a half-written file
+		if old, err := os.ReadFile(out); err != nil || string(old) != txt {
+			tmp, err := os.CreateTemp(dd, "tmp")
+			if err != nil {
+				return nil, err
+			}
+			tmp.WriteString(txt)
+			tmp.Close()
+			if err := os.Rename(tmp.Name(), out); err != nil {
+				return nil, err
+			}
 		}
 		m[filepath.Join(repoDir(), d.virt)] = out
 	}
